@@ -50,6 +50,10 @@ def _cases(draw):
         for i in idx:
             m[i] = zero
         mats.append(m)
+    if dtype == "float" and n >= 2 and draw(st.integers(0, 3)) == 0:
+        # the matrices of one stack on very different scales (each by its own power of two: exact)
+        ks = draw(st.lists(st.sampled_from([-600, -300, 0, 300, 600]), min_size=n, max_size=n))
+        mats = [[float(v) * 2.0 ** k for v in m] for m, k in zip(mats, ks)]
     al = st.one_of(st.floats(min_value=1e-6, max_value=1 - 1e-6), st.floats(min_value=1e-6, max_value=1 - 1e-6),
                    st.sampled_from([1e-9, 1e-12, 1e-13, 1e-15, 1e-16, 1e-18, 1e-40, 1e-300, 1 - 1e-12]))
     a1 = draw(al)
@@ -233,7 +237,7 @@ def _check(case):
                     continue
                 require(not (math.isnan(lo) or math.isnan(hi)), "ci:nan-locus", f"{k} {ctx}")
                 hw = z * math.sqrt(max(p * (1 - p), 0.0) / nobs)
-                tol = ct * max(hw, abs(p), 1e-300) + 1e-15
+                tol = ct * max(hw, abs(p), 1e-300)  # relative only: tiny rates have tiny intervals
                 require(abs((lo + hi) / 2 - p) <= tol, "ci:centre", f"{k} {ctx}: {lo!r},{hi!r} p={p!r}")
                 require(abs((hi - lo) / 2 - hw) <= tol, "ci:half-width",
                         f"{k} {ctx}: half width {(hi - lo) / 2!r} expected {hw!r}")
@@ -248,7 +252,7 @@ def _check(case):
                 # the complementary rate is a rounded 1-p: for p within 1e-k of 0 or 1 the product
                 # p(1-p), and with it the width, is only accurate to about 1e-(16-k) relative
                 q = max(min(p, 1 - p), 1e-300)
-                mt = rt + abs(w[1] - w[0]) * (ct + 4e-16 / q)
+                mt = rt + max(abs(w[1] - w[0]), abs(mi[1] - mi[0])) * (ct + 4e-16 / q)
                 require(abs(w[0] - (1 - mi[1])) <= mt and abs(w[1] - (1 - mi[0])) <= mt,
                         "ci:mirror", f"{k} vs {mirror} {ctx}: {w.tolist()} {mi.tolist()}")
     require(np.array_equal(M, M0), "alg:mutated-input", "")
